@@ -18,7 +18,15 @@
      - two runs of the same configuration that printed different traces.
    DIFF: the model, replayed with the choice list read off the trace (z from the
    Iteration, new start from verif_starts, accept / reject from the active set),
-   does not reproduce a reported state, the convergence, or a panic. *)
+   does not reproduce a reported state, the convergence, or a panic.
+   Word stream (rw= fields; SamplerStream.v, C16F.sampler_deterministic): the initial starts
+   (starts_w) and the hold-out of EVERY call (holdout_w) are recomputed from the words the
+   generator handed out and must equal the implementation's; the words left after the
+   hold-out's are none (start kept) or exactly one 64-bit word (the draw); the first calls are
+   replayed through next_w as a whole.
+   Panics: an implementation panic (record P;at=<file>;msg=<message>;rw=<words>) is explained
+   only if the model, run on the SAME words (hold-out from holdout_w), panics at a documented
+   site whose message class (table site_class below) is the implementation's. *)
 open Sampler_model
 
 let rec nat_of_int n = if n <= 0 then O else S (nat_of_int (n - 1))
@@ -111,11 +119,53 @@ let fexp2 y = match Hashtbl.find_opt exp2tab (i64_of_f64 y) with
   | Some o -> f64_of_i64 o | None -> oracle_miss := true; f64_of_i64 0x7FF8000000000000L
 
 
+(* stand-ins for libm, used ONLY to explain a weight-overflow panic (site 8), where the implementation's
+   own values are lost with the panicking call: OCaml's log2 / pow rounded to binary32 / binary64.  Not bit
+   exact; the decision "some weight is +inf" is robust (scores far above 1024). *)
+let approx_log2 (x : F32.t) : F32.t =
+  f32_of_int ((Int32.to_int (Int32.bits_of_float (Float.log2 (float_of_f32bits (int_of_f32 x))))) land 0xFFFFFFFF)
+let approx_exp2 (y : F64.t) : F64.t =
+  f64_of_i64 (Int64.bits_of_float (Float.pow 2.0 (Int64.float_of_bits (i64_of_f64 y))))
+
 let kv tok = match String.index_opt tok '=' with
   | Some i -> (String.sub tok 0 i, String.sub tok (i + 1) (String.length tok - i - 1))
   | None -> (tok, "")
 
 exception Bad of string
+
+(* rw= : words of the generator, <width>:<value> *)
+let parse_words (s : string) : word list =
+  List.map (fun t -> match String.split_on_char ':' t with
+      | ["64"; v] -> W64 (z_of_i64u (Int64.of_string ("0u" ^ v)))
+      | ["32"; v] -> W32 (z_of_i64u (Int64.of_string ("0u" ^ v)))
+      | _ -> raise (Bad ("word-of-unmodelled-kind " ^ t))) (split ',' s)
+
+let starts_with pre s = String.length s >= String.length pre && String.sub s 0 (String.length pre) = pre
+let contains sub s = try ignore (Str.search_forward (Str.regexp_string sub) s 0); true with Not_found -> false
+
+(* documented panic sites of the model (SamplerModel.v) and the source file / message of the Rust panic
+   behind each; an implementation panic is explained only by a model panic of the same site *)
+let site_class (site : int) (at : string) (msg : string) : bool =
+  match site with
+  | 1 -> at = "sampler.rs" && starts_with "booh" msg
+  | 2 -> (at = "sampler.rs" && starts_with "attempt_to_subtract_with_overflow" msg)
+         (* release profile: seq.len() - width + 1 wraps; what follows depends on the wrapped value
+            (Uniform::new(0, 0), or a start far outside the sequence).  Site 2 is decided by the
+            data set alone (a sequence shorter than the width: outside the quantifier of C16). *)
+         || (at = "uniform.rs" && starts_with "Uniform__new_called_with__low____high_" msg)
+         || starts_with "attempt_to_divide_by_zero" msg
+         || starts_with "index_out_of_bounds" msg
+         || starts_with "range_end_index" msg || starts_with "range_start_index" msg
+         || starts_with "attempt_to_add_with_overflow" msg
+  | 5 -> at = "sampler.rs" && starts_with "called__Option__unwrap____on_a__None__value" msg
+  | 6 -> at = "uniform.rs" && starts_with "Uniform__new_called_with__low____high_" msg
+  | 7 -> at = "sampler.rs" && starts_with "called__Result__unwrap____on_an__Err__value" msg
+  | 8 -> at = "uniform.rs" && starts_with "Uniform__new" msg && (contains "finite" msg || contains "overflow" msg)
+  | 9 -> at = "sampler.rs" && starts_with "attempt_to_add_with_overflow" msg
+  | 14 -> at = "sampler.rs" && starts_with "attempt_to_multiply_with_overflow" msg
+  | _ -> false
+let documented_site ~construction site =
+  if construction then List.mem site [1; 2; 14] else List.mem site [5; 6; 7; 8; 9]
 
 (* ---- printing in the harness' format ---- *)
 let show_ints l = if l = [] then "-" else String.concat "," (List.map string_of_int l)
@@ -303,13 +353,20 @@ let () =
             else if show_bits rep.r_bg <> r.bg then diff (tag ^ " background model " ^ show_bits rep.r_bg ^ " impl " ^ r.bg) in
           (match recs with
            | [] -> raise (Bad "no records")
-           | "P" :: rest ->
+           | prec :: rest when prec = "P" || starts_with "P;" prec ->
                if rest <> [] then diff "records-after-panic";
+               let pex = List.map kv (List.tl (String.split_on_char ';' prec)) in
+               let at = (try List.assoc "at" pex with Not_found -> "?") and msg = (try List.assoc "msg" pex with Not_found -> "?") in
                (match construct [] [] with
-                | Panic _ -> ()
-                | _ ->
-                    (* the choice-independent panics come first in the model; anything else is unexplained *)
-                    diff "construction-panicked-model-does-not")
+                | Panic s ->
+                    (* the choice-independent panics come first in the model; the site must be a documented one
+                       and the implementation's panic must be the one behind that site *)
+                    let s = int_of_nat s in
+                    if not (documented_site ~construction:true s) then
+                      diff (Printf.sprintf "construction-panicked-model-panics-at-undocumented-site-%d" s)
+                    else if not (site_class s at msg) then
+                      diff (Printf.sprintf "construction-panic-at-%s-%s-is-not-the-panic-of-model-site-%d" at msg s)
+                | _ -> diff (Printf.sprintf "construction-panicked-model-does-not at=%s msg=%s" at msg))
            | first :: rest ->
                let r0 = (match String.split_on_char ';' first with
                    | "I" :: st -> parse_state st
@@ -320,7 +377,8 @@ let () =
                let parsed = List.filter_map (fun r ->
                    match String.split_on_char ';' r with
                    | "S" :: z :: step :: itn :: itc :: stf -> Some (int_of_string z, int_of_string step, itn, itc, parse_state stf)
-                   | ["E"] | ["P"] -> None
+                   | ["E"] -> None
+                   | "P" :: _ -> None
                    | _ -> raise (Bad ("bad record " ^ r))) rest in
                (* detail=false: only build the reports (and the structural checks on the observation);
                   detail=true: also run the component checkers to name the first failing clause *)
@@ -362,7 +420,44 @@ let () =
                 | _ -> ignore (pass1 ~detail:true));
                (* ---- pass 2: correspondence, the model replayed with the choices read off the trace ---- *)
                let starts0 = List.map nat_of_int r0.starts in
-               let seeds0 = if zoops_eff then List.map nat_of_int r0.active else [] in
+               (* Zoops: the seed list IN THE ORDER of rand::seq::index::sample, recomputed from the words of the
+                  construction (SamplerStream.seeds_w); select_holdout indexes into it during the inertia phase *)
+               let i_words = (match String.split_on_char ';' first with
+                   | "I" :: stf -> (match List.assoc_opt "rw" (extras stf) with
+                       | Some rw -> (try Some (parse_words rw) with Bad b -> diff ("init word-stream " ^ b); None)
+                       | None -> diff "init record-without-rw"; None)
+                   | _ -> None) in
+               let after_starts = (match i_words with
+                   | Some ws ->
+                       (match starts_w wn data ws with
+                        | Ok (sm, restw) ->
+                            if List.map int_of_nat sm <> r0.starts then begin
+                              diff ("init starts-from-the-word-stream model " ^ show_ints (List.map int_of_nat sm)
+                                    ^ " impl " ^ show_ints r0.starts); None end
+                            else Some restw
+                        | _ -> diff "init word-stream-does-not-yield-the-initial-starts"; None)
+                   | None -> None) in
+               let seeds0 =
+                 if not zoops_eff then begin
+                   (match after_starts with
+                    | Some (_ :: _) -> diff "init construction-consumed-more-words-than-the-model"
+                    | _ -> ());
+                   [] end
+                 else begin
+                   let initial = (match optf "seeds" with Some sd -> sd | None -> N0) in
+                   match after_starts with
+                   | Some restw ->
+                       (match seeds_w (nat_of_int nseq) initial restw with
+                        | Ok (sd, rest2) ->
+                            if rest2 <> [] then diff "init construction-consumed-more-words-than-the-model";
+                            if List.sort compare (List.map int_of_nat sd) <> r0.active then begin
+                              diff ("init seed-set-from-the-word-stream model " ^ show_ints (List.map int_of_nat sd)
+                                    ^ " impl " ^ show_ints r0.active);
+                              List.map nat_of_int r0.active end
+                            else sd
+                        | _ -> diff "init word-stream-does-not-yield-the-seed-set"; List.map nat_of_int r0.active)
+                   | None -> List.map nat_of_int r0.active
+                 end in
                (match construct starts0 seeds0 with
                 | Ok (c, st0) ->
                     same_state "init" st0 r0;
@@ -371,13 +466,52 @@ let () =
                       | "E" :: rest ->
                           if rest <> [] then diff "records-after-end";
                           if not st.st_conv then diff (Printf.sprintf "step%d implementation-converged-model-did-not" idx)
-                      | "P" :: rest ->
+                      | prec :: rest when prec = "P" || starts_with "P;" prec ->
                           if rest <> [] then diff "records-after-panic";
-                          let cands = if nseq = 0 then [0] else List.init nseq (fun i -> i) in
-                          let explains z = match next c st { ch_z = nat_of_int z; ch_upd = UKeep; ch_accept = true } with
-                            | Panic _ -> true | _ -> false in
-                          if not (List.exists explains cands) then
-                            diff (Printf.sprintf "step%d panic-not-explained-by-the-model" idx)
+                          (* the model runs on the words the generator handed out before the panic: the hold-out is
+                             holdout_w's, the model must panic at a documented site, and the implementation's panic
+                             (file, message) must be the one behind that site.  A weight overflow (site 8) cannot be
+                             replayed without the libm values of the call: reported, never accepted silently. *)
+                          let pex = List.map kv (List.tl (String.split_on_char ';' prec)) in
+                          let at = (try List.assoc "at" pex with Not_found -> "?") and msg = (try List.assoc "msg" pex with Not_found -> "?") in
+                          let tag = Printf.sprintf "step%d" idx in
+                          let zpanic = ref None in
+                          let site =
+                            (try
+                              (match holdout_w c st (parse_words (try List.assoc "rw" pex with Not_found -> raise (Bad "panic-record-without-rw"))) with
+                               | Ok (zm, _) ->
+                                   zpanic := Some zm;
+                                   (match next c st { ch_z = zm; ch_upd = UKeep; ch_accept = true } with
+                                    | Panic s -> Some (int_of_nat s)
+                                    | _ -> None)
+                               | Panic s -> Some (int_of_nat s)
+                               | _ -> None)
+                            with Bad b -> diff (tag ^ " panic-record " ^ b); None) in
+                          (match site with
+                           | Some s when documented_site ~construction:false s && site_class s at msg -> ()
+                           | Some s when not (documented_site ~construction:false s) ->
+                               diff (Printf.sprintf "%s model-panics-at-undocumented-site-%d" tag s)
+                           | Some s ->
+                               diff (Printf.sprintf "%s panic-at-%s-%s-is-not-the-panic-of-model-site-%d" tag at msg s)
+                           | None ->
+                               if site_class 8 at msg then begin
+                                 (* WeightedIndex::new -> Uniform::new(0, +inf): the float model of the call, with
+                                    OCaml's libm standing in for the lost values, must reach WPanic (model site 8) *)
+                                 let explained = (match !zpanic with
+                                     | Some zm ->
+                                         (match exclude_sequence c st zm with
+                                          | Ok st1 ->
+                                              (match pssm_of kn approx_log2 st1.st_motif st1.st_bg with
+                                               | Ok (_, m) ->
+                                                   (match wi_new (weight_vec approx_exp2 (score_vec wn m (List.nth data (int_of_nat zm)))) with
+                                                    | WPanic -> true
+                                                    | _ -> false)
+                                               | _ -> false)
+                                          | _ -> false)
+                                     | None -> false) in
+                                 if not explained then diff (tag ^ " weight-overflow-panic-not-reproduced-by-the-float-model")
+                               end
+                               else diff (Printf.sprintf "%s panic-not-explained-by-the-model at=%s msg=%s" tag at msg))
                       | r :: rest ->
                           (match String.split_on_char ';' r with
                            | "S" :: z :: _step :: itn :: itc :: stf ->
@@ -391,6 +525,23 @@ let () =
                                  let ex = extras stf in
                                  let sz = List.nth data z in
                                  let accept_obs = List.mem z cur.active in
+                                 (* the hold-out is a function of the generator's words (SamplerStream.holdout_w); what is
+                                    left is nothing (start kept) or exactly the one 64-bit word of WeightedIndex::sample *)
+                                 let restw = (match List.assoc_opt "rw" ex with
+                                     | Some rw ->
+                                         (try
+                                           (match holdout_w c st (parse_words rw) with
+                                            | Ok (zm, restw) ->
+                                                if int_of_nat zm <> z then
+                                                  diff (Printf.sprintf "%s hold-out-from-the-word-stream model %d impl %d" tag (int_of_nat zm) z);
+                                                (match restw with
+                                                 | [] -> if s_new <> s_old then diff (tag ^ " start-moved-without-a-generator-word")
+                                                 | [W64 _] -> ()
+                                                 | _ -> diff (tag ^ " call-consumed-more-words-than-the-model"));
+                                                Some restw
+                                            | _ -> diff (tag ^ " word-stream-does-not-yield-a-hold-out"); None)
+                                         with Bad b -> diff (tag ^ " word-stream " ^ b); None)
+                                     | None -> diff (tag ^ " record-without-rw"); None) in
                                  (* the choice inferred from the trace alone (as before) ... *)
                                  let ch0 = { ch_z = zn;
                                              ch_upd = (if s_new = s_old then UKeep else UNew (nat_of_int s_new));
@@ -405,6 +556,8 @@ let () =
                                          if s_new <> s_old && (s_new >= List.length sup || not (List.nth sup s_new)) then
                                            diff (Printf.sprintf "%s new-start-%d-has-zero-weight-in-the-model" tag s_new);
                                          if alldead && s_new <> s_old then diff (tag ^ " start-moved-although-every-weight-is-zero");
+                                         if alldead && (match restw with Some (_ :: _) -> true | _ -> false) then
+                                           diff (tag ^ " generator-word-drawn-although-every-weight-is-zero");
                                          { ch0 with ch_upd = (if alldead then UKeep else UNew (nat_of_int s_new)) }
                                      | _ -> ch0) in
                                  (* floating-point replay (first fl calls): PSSM, scores, weights, the draw from the
@@ -415,10 +568,10 @@ let () =
                                            oracle_miss := false;
                                            let ident32 (x : F32.t) = x and ident64 (y : F64.t) = y in
                                            let st1 = (match exclude_sequence c st zn with Ok x -> x | _ -> raise (Bad "exclude")) in
-                                           let word = (match String.split_on_char ':' rword with
-                                               | [_; "-"] -> None
-                                               | [_; wd] -> Some (z_of_i64u (Int64.of_string ("0u" ^ wd)))
-                                               | _ -> raise (Bad "bad r=")) in
+                                           ignore rword;
+                                           (* the word of the draw is the one the MODEL's stream discipline assigns to it:
+                                              the first word after the hold-out's *)
+                                           let word = (match restw with Some (W64 wd :: _) -> Some wd | _ -> None) in
                                            (* log2 table of one PSSM: inputs from the model (flog2 := identity), outputs from the record *)
                                            let feed_log2 (stx : state) cells =
                                              (match pssm_of kn ident32 stx.st_motif stx.st_bg with
@@ -497,6 +650,23 @@ let () =
                                          with Bad b -> diff (tag ^ " float-replay " ^ b); ch1
                                             | Invalid_argument b -> diff (tag ^ " float-replay-shape " ^ b); ch1)
                                      | _ -> ch1) in
+                                 (* the first float-replayed calls once more through next_w as a whole (the function the
+                                    determinism theorem speaks of): same state, every word consumed *)
+                                 if idx < 6 && List.mem_assoc "p" ex && not !oracle_miss && !oracle_bad = None then begin
+                                   (try
+                                     (match List.assoc_opt "rw" ex with
+                                      | Some rw ->
+                                          (match next_w flog2 fpow2 fexp2 c st (parse_words rw), next c st ch with
+                                           | Ok ((stw, _), leftw), Ok ((st', _)) ->
+                                               if !oracle_miss then ()
+                                               else if leftw <> [] then diff (tag ^ " next_w-leaves-words-unconsumed")
+                                               else if stw <> st' then diff (tag ^ " next_w-state-differs-from-the-replayed-state")
+                                           | (Panic _ | Err _ | OutOfFuel), Ok _ ->
+                                               if not !oracle_miss then diff (tag ^ " next_w-fails-where-the-replay-succeeds")
+                                           | _, _ -> ())
+                                      | None -> ())
+                                   with Bad _ -> ())
+                                 end;
                                  (match next c st ch with
                                   | Ok (st', Some mit) ->
                                       same_state tag st' cur;
